@@ -142,6 +142,29 @@ func runC19(c *Ctx) {
 	}
 	_ = nSites
 
+	importRules(c, runC14, map[string]string{"C14.R2": "C19.R7"}, map[string]string{"C19.R7": "a failing read never leaves a mutex held (a later query would hang instead of degrading) (shared with C14.R2)"})
+	// bucket scans continue past an unreadable entry
+	{
+		c.Rule("C19.R8", "WIRE", "bucket scans are complete: an unreadable entry is skipped, not the rest of the bucket", 3)
+		for _, fn := range c.P.AllLibFuncs() {
+			var sites []ssa.CallInstruction
+			sites = append(sites, callsTo(fn, rnr)...)
+			sites = append(sites, callsTo(fn, rhr)...)
+			loops := loopsOf(fn)
+			for _, site := range sites {
+				l := innermostLoop(loops, site.Block())
+				if l == nil {
+					c.Fail("C19.R8", shortFn(fn)+": bucket scan", site.Pos(), "UNDECIDED: retrieval outside a loop over the bucket")
+					continue
+				}
+				ro := rangedOver(l)
+				ok := ro != nil && ro.Full && onlyExhaustionExit(l)
+				c.Check(ok, "C19.R8", shortFn(fn)+": bucket scan continues after a failed retrieval", site.Pos(), "complete range over the bucket, no early exit",
+					"the loop over the bucket can end early (break/return): after the first unreadable entry, rules later in the bucket that are already in memory are no longer served")
+			}
+		}
+	}
+
 	// ---------- R3 ----------
 	if tbl := c.P.Type("lookup", "Table"); tbl != nil {
 		for _, n := range implementers(c.P, tbl.Underlying().(*types.Interface)) {
